@@ -80,10 +80,25 @@ func runHarness(w *World, verif, tier string, seed int, h harnessSpec) boundedRe
 }
 
 func init() {
+	boundedChecks["C07"] = append(boundedChecks["C07"], func(w *World, tier string, seed int, verif string) []boundedResult {
+		return []boundedResult{runHarness(w, verif, tier, seed, harnessSpec{
+			name: "corrupted-responses", pkg: "dig", pkgName: "dig", dir: "plan", files: []string{"plan_bounded_test.go", "corrupt_bounded_test.go"}, run: "TestVerifCorruptBounded",
+			bound: "10 data plans (headers, blocks, receipts, logs, traces and combinations) x ranges 1..3 x single corruptions per RPC method (reorder, duplicate, drop, null result, error member, HTTP 500, truncated body, renumbered block, broken parent hash, receipt naming another block, log out of range) against the real jrpc2.Client.Get + row builder: either an error, or complete and correctly placed data",
+		})}
+	})
 	boundedChecks["C13"] = append(boundedChecks["C13"], func(w *World, tier string, seed int, verif string) []boundedResult {
 		return []boundedResult{runHarness(w, verif, tier, seed, harnessSpec{
 			name: "signature-vs-canon", pkg: "dig", pkgName: "dig", dir: "abi", files: []string{"sig_bounded_test.go"}, run: "TestVerifSigBounded",
 			bound: "real Event.Signature vs an independent canonicalisation: 16 elementary/array leaves, 2-component tuples with 7 array suffixes (incl. [][], [2][], [][4], [3][2][]), tuples nested to depth 3, paired into 2-input events; SignatureHash vs the known Keccak-256 of Transfer/Approval",
+		})}
+	})
+	boundedChecks["C14"] = append(boundedChecks["C14"], func(w *World, tier string, seed int, verif string) []boundedResult {
+		return []boundedResult{runHarness(w, verif, tier, seed, harnessSpec{
+			name: "plan-all-pairs", pkg: "dig", pkgName: "dig", dir: "plan", files: []string{"plan_bounded_test.go"}, run: "TestVerifPlanBounded",
+			bound: "every field name of the row builder (read from the source) alone and in every ordered pair, in tx, log and trace indexing mode, through the real dig.New -> Filter (glf plan) -> jrpc2.Client.Get -> Integration.Insert against a scripted JSON-RPC node with all fields distinct and non-zero; each stored column compared with the node's value",
+		}), runHarness(w, verif, tier, seed, harnessSpec{
+			name: "glf-difference-any", pkg: "shovel/glf", pkgName: "glf", dir: "glf", files: []string{"glf_bounded_test.go"}, run: "TestVerifGLFBounded",
+			bound: "real glf.difference and glf.any vs set semantics for all slices of length <= 3 over a 3-letter alphabet (40 slices; difference with two 'others' arguments, the second from the first 14 slices)",
 		})}
 	})
 	boundedChecks["C09"] = append(boundedChecks["C09"], func(w *World, tier string, seed int, verif string) []boundedResult {
